@@ -11,6 +11,7 @@ import (
 	"encoding/json"
 	"fmt"
 	"math"
+	"math/big"
 	"math/rand"
 	"sort"
 	"strconv"
@@ -604,6 +605,9 @@ var c15RefuseArgs = []proto.Arg{
 	{T: "error", S: "boom"}, {T: "[]uint8", E: []proto.Arg{{T: "uint8", I: 97}, {T: "uint8", I: 98}}}, {T: "[]bool", E: []proto.Arg{{T: "bool", I: 1}}},
 	{T: "[]interface{}", E: []proto.Arg{{T: "nil"}}}, {T: "[]interface{}", E: []proto.Arg{{T: "int", I: 1}, {T: "bool", I: 1}}},
 	{T: "[][]uint8", E: []proto.Arg{{T: "[]uint8", E: []proto.Arg{{T: "uint8", I: 1}}}}}, {T: "[1]bool", E: []proto.Arg{{T: "bool"}}},
+	// unsigned values at and above 2^63 (I is the two's complement bit pattern): no Prolog integer of this engine denotes them
+	{T: "uint64", I: -1}, {T: "uint64", I: math.MinInt64}, {T: "uint64", I: math.MinInt64 + 97}, {T: "uint", I: -1}, {T: "uintptr", I: -2}, {T: "uint64", I: math.MaxInt64},
+	{T: "uint32", I: 4294967295}, {T: "uint16", I: 65535}, {T: "uint8", I: 255},
 }
 
 // c15Trailing: texts that follow the full stop of the term Query reads (Query reads one term). The placeholders of the
@@ -1198,6 +1202,22 @@ func (c *c15) judgeRefuse(m *c15Meta, it *Item, o *run.Outcome) Verdict {
 		v.Extra["unsupported_type_refused_with_error"]++
 	default:
 		v.Extra["unsupported_type_accepted"]++
+		// an accepted unsigned integer has to arrive as the integer it is (values from 2^63 on cannot: an error is due)
+		if strings.HasPrefix(m.V.T, "uint") && st.Query != "" && len(sr.Answers) == 1 {
+			want := new(big.Int).SetUint64(uint64(m.V.I))
+			switch m.V.T {
+			case "uint8":
+				want.SetUint64(uint64(uint8(m.V.I)))
+			case "uint16":
+				want.SetUint64(uint64(uint16(m.V.I)))
+			case "uint32":
+				want.SetUint64(uint64(uint32(m.V.I)))
+			}
+			x := sr.Answers[0]["X"]
+			if x != nil && x.IsCmp("f", 1) && x.Args[0].K == term.KInt && big.NewInt(x.Args[0].I).Cmp(want) != 0 {
+				v.Status, v.Msg = Violated, fmt.Sprintf("the Go value %s(%s) passed for ? arrived as the integer %d (neither the value nor an error)", m.V.T, want.String(), x.Args[0].I)
+			}
+		}
 	}
 	return v
 }
